@@ -91,6 +91,7 @@ type Contract struct {
 	ReplayGo      []string // hand-written reproductions (test bodies) tried when an obligation of this function fails
 	ghostRel      int
 	ghostNames    map[string]bool
+	FrameProp     string
 	NoInline      bool // abstract mode: static callees are never inlined (all ghost-relevant calls are direct)
 	AbstractToo   bool
 	Pure          bool                // trusted-pure: parameter names are not bound
@@ -127,12 +128,15 @@ type Macro struct {
 	Name   string
 	Params []string
 	Body   ast.Expr
+	Pkg    *types.Package // names in the body resolve in the package that declares the macro
 }
 
 type GhostVar struct {
 	Name string
 	Sort string // Int or Bool
 	Init string
+	// Scratch: a ghost local of one function (set at its entry, meaningless elsewhere): exempt from callers' frames
+	Scratch bool
 }
 
 type Lemma struct {
@@ -293,7 +297,7 @@ var clauseKeywords = map[string]bool{
 	"lemma": true, "requires": true, "ensures": true, "top-ensures": true, "modifies": true, "allocates": true,
 	"panics": true, "abstract": true, "nosafety": true, "loop": true, "invariant": true, "top-invariant": true,
 	"decreases": true, "assert": true, "alias": true, "props": true, "recvnonnil": true, "ghostset": true,
-	"end": true, "opaque": true, "witness": true, "trusted-pure": true, "crlf-discipline": true, "crlf-exempt": true, "replay-go": true, "appends-raw": true, "fresh-override": true, "fresh-except": true, "macro": true, "ghostset-at-entry": true, "abstract-too": true, "replay-import": true, "noinline": true, "replay-decl": true, "unreachable-return": true,
+	"end": true, "opaque": true, "witness": true, "trusted-pure": true, "crlf-discipline": true, "crlf-exempt": true, "replay-go": true, "appends-raw": true, "fresh-override": true, "fresh-except": true, "macro": true, "ghostset-at-entry": true, "abstract-too": true, "replay-import": true, "noinline": true, "replay-decl": true, "unreachable-return": true, "frame-prop": true,
 }
 
 // parseContractFile reads the //@ lines of one file.
@@ -385,6 +389,9 @@ func (p *contractParser) line(t string, no int) error {
 			g.Sort = "(Array Int Int)"
 			g.Init = "((as const (Array Int Int)) 0)"
 		}
+		if len(fs) > 3 && fs[3] == "scratch" {
+			g.Scratch = true
+		}
 		if fs[0] == "field" {
 			if strings.Count(g.Name, ".") == 1 && !strings.HasPrefix(g.Name, "*.") {
 				g.Name = p.pkg.Name() + "." + g.Name
@@ -404,7 +411,7 @@ func (p *contractParser) line(t string, no int) error {
 		if i < 0 || j < 0 || k < j {
 			return fmt.Errorf("macro needs NAME(params) = expr")
 		}
-		m := &Macro{Name: strings.TrimSpace(rest[:i])}
+		m := &Macro{Name: strings.TrimSpace(rest[:i]), Pkg: p.pkg}
 		for _, a := range strings.Split(rest[i+1:j], ",") {
 			if a = strings.TrimSpace(a); a != "" {
 				m.Params = append(m.Params, a)
@@ -503,6 +510,8 @@ func (p *contractParser) line(t string, no int) error {
 		c.FreshExcept[strings.TrimSpace(rest[:i])] = strings.TrimSpace(rest[i+2:])
 	case "noinline":
 		c.NoInline = true
+	case "frame-prop":
+		c.FrameProp = rest // the frame obligations belong to this property only
 	case "abstract-too":
 		c.AbstractToo = true // applied at call sites even in abstract-mode functions
 	case "appends-raw":
